@@ -1,6 +1,6 @@
 (* C08 — only what lies inside the horizon and inside an asset's window matters. *)
 From Coq Require Import QArith ZArith List String Bool Lia.
-From EAO Require Import Num LP Mapping Grid Assets Portfolio.
+From EAO Require Import Num LP Mapping Grid Assets Portfolio Inert.
 Import ListNotations.
 Open Scope Q_scope.
 
@@ -81,3 +81,42 @@ Theorem C08_order_outside_inert :
   ap_map a = [] /\ lp_c (ap_lp a) = [Qred (o_capa o * 0 * o_price o)].
 Proof. exact order_outside. Qed.
 Print Assumptions C08_order_outside_inert.
+
+(* an empty asset problem anywhere in the asset list leaves the whole portfolio problem (vectors, asset rows,
+   nodal rows, mapping) unchanged *)
+Theorem C08_empty_asset_inert_anywhere :
+  forall nodes skip steps l1 l2,
+  portfolio nodes skip steps (l1 ++ ap_empty :: l2) = portfolio nodes skip steps (l1 ++ l2).
+Proof. exact portfolio_empty_anywhere. Qed.
+Print Assumptions C08_empty_asset_inert_anywhere.
+
+(* an order without grid point in [start, end) appended to any order book: one more [0,1] variable with zero
+   cost and no mapping row; costs, bounds, mapping of the other orders are untouched *)
+Theorem C08_order_outside_append :
+  forall name node fe rg orders o, order_outside_grid rg o ->
+  let a := orderbook name node fe rg orders in
+  let a' := orderbook name node fe rg (orders ++ [o]) in
+  ap_map a' = ap_map a /\
+  lp_c (ap_lp a') = lp_c (ap_lp a) ++ [Qred (o_capa o * 0 * o_price o)] /\
+  lp_l (ap_lp a') = lp_l (ap_lp a) ++ [0] /\ lp_u (ap_lp a') = lp_u (ap_lp a) ++ [1] /\
+  lp_rows (ap_lp a') = lp_rows (ap_lp a).
+Proof. exact order_outside_append. Qed.
+Print Assumptions C08_order_outside_append.
+
+(* such a variable (zero cost, in no row) changes neither the optimal value nor the optimal points of the rest *)
+Theorem C08_free_variable_inert :
+  forall P x c0 v, wf_lp P -> c0 == 0 -> 0 <= v -> v <= 1 -> optimal P x ->
+  optimal (lp_sum P (free_var c0)) (x ++ [v]) /\ value (lp_sum P (free_var c0)) (x ++ [v]) == value P x.
+Proof. exact free_variable_inert. Qed.
+Print Assumptions C08_free_variable_inert.
+
+(* non-vacuity: hourly grid of 3 steps; window [1h, 2h) selects step 1; an order after the horizon is outside *)
+Definition exg : grid := Build_grid [0; 3600; 7200; 10800]%Z 0 10800 3600.
+Example C08_nonvacuous :
+  restrict_I exg 3600 7200 = [1%nat] /\ restrict_I exg 20000 30000 = [] /\
+  order_outside_grid (restrict exg [1; 1; 1] 0 10800) (Build_order 20000 30000 2 5).
+Proof.
+  split; [vm_compute; reflexivity|]. split; [vm_compute; reflexivity|].
+  intros k Hk. change (rg_T (restrict exg [1; 1; 1] 0 10800)) with 3%nat in Hk.
+  destruct k as [|[|[|k]]]; try (vm_compute; reflexivity). exfalso. Lia.lia.
+Qed.
